@@ -192,7 +192,7 @@ Definition proxes := [PNone; PNonneg; PL1; PL2; PL2sq; PUnimodal; PNormalize; PS
                       PSmooth; PMonotone; PHardSparse; PSvt; PProcrustes].
 Definition bools2 := [false; true].
 Definition families := [FParafac; FNNParafac; FNNParafacHals; FConstrained; FTucker; FPartialTucker; FNNTucker; FNNTuckerHals;
-   FRobustPca; FProx; FHalsNnls; FFista; FActiveSet; FAdmm; FSvd; FCpNormalize; FPure; FRandom; FSampleKR; FIndexed; FFlipSign;
+   FRobustPca; FProx; FHalsNnls; FFista; FActiveSet; FAdmm; FSvd; FCpNormalize; FPure; FRandom; FSampleKR; FIndexed; FPermute; FFlipSign;
    FRandParafac; FParafac2; FSvdChain; FTrAls; FTrAlsSampled; FTTCross; FCmtf; FPower; FCpReg; FTuckerReg; FPlsr; FMoment; FMetric; FCompress].
 (* all option combinations of all families except the documented float64 one (FLeverage); the active-set exception
    fallback is excluded here and refuted below *)
